@@ -28,6 +28,7 @@ import (
 	"time"
 
 	"github.com/orda-io/orda/client/pkg/model"
+	"github.com/orda-io/orda/client/pkg/orda"
 	"google.golang.org/protobuf/proto"
 
 	"verifharness/stack"
@@ -325,6 +326,7 @@ func main() {
 	seed := flag.Int64("seed", 1, "seed")
 	out := flag.String("out", "trace.ndjson", "trace file")
 	nmax := flag.Int("clients", 4, "clients per round (2..4)")
+	big := flag.Int("big", 0, "run only this many LONG histories (a client far behind a long log, more pending operations than fit one buffer) instead of the parallel rounds")
 	flag.Parse()
 	if os.Getenv("VERIF_STDERR") == "" {
 		if dn, err := os.OpenFile("/dev/null", os.O_WRONLY, 0); err == nil {
@@ -341,6 +343,19 @@ func main() {
 	var viol []Violation
 	nevents, ncalls, nparallel := 0, 0, 0
 	shapes := map[string]int{}
+	if *big > 0 {
+		for r := 0; r < *big; r++ {
+			shapes["big"]++
+			ev, calls, v := bigRound(r, *seed, rng)
+			for _, e := range ev {
+				enc.Encode(e)
+				nevents++
+			}
+			ncalls += calls
+			viol = append(viol, v...)
+		}
+		*rounds = 0
+	}
 	for r := 0; r < *rounds; r++ {
 		shape := []string{"burst", "staggered", "multi"}[r%3]
 		shapes[shape]++
@@ -483,10 +498,204 @@ func main() {
 		st.Close()
 	}
 	f.Close()
+	if *big > 0 {
+		*rounds = *big
+	}
 	sum := map[string]interface{}{"rounds": *rounds, "events": nevents, "calls": ncalls, "parallel_exchanges": nparallel, "shapes": shapes, "nviol": len(viol), "violations": viol}
 	b, _ := json.Marshal(sum)
 	fmt.Println(string(b))
 	if len(viol) > 0 {
 		os.Exit(1)
 	}
+}
+
+// bigRound: one LONG sequential history on a List (tagged elements, so that what a client holds is readable):
+// client 2 subscribes and goes offline; client 1 pushes more than a thousand operations in batches; client 2 comes
+// back with one operation; then client 1 gathers more pending operations than one buffer holds, with a transaction
+// lying across the 1024th, and client 2 pulls in between client 1's syncs. Events as in the parallel rounds; at the
+// end the lists of both clients and the list the server rebuilds must be equal.
+func bigRound(r int, seed int64, rng *rand.Rand) (trace []ev, ncalls int, viol []Violation) {
+	st, err := stack.New()
+	if err != nil {
+		fmt.Printf(`{"error":"stack: %s"}`+"\n", err)
+		os.Exit(3)
+	}
+	defer st.Close()
+	st.CreateCollection("col")
+	key := fmt.Sprintf("big%d", r)
+	cls := map[int]*stack.Client{}
+	dts := map[int]*stack.DT{}
+	cuid := map[string]int{}
+	headers := map[[2]int]int{} // (client, header seq) -> operations of the unit
+	nextID := 0
+	emit := func(e ev) { trace = append(trace, e) }
+	fail := func(class, why string) {
+		viol = append(viol, Violation{Property: "C12", Kind: "list", Class: class, Why: why, Steps: tail(trace, 40), Tool: "concdriver", Seed: seed, Round: r,
+			Hash: fmt.Sprintf("big-%d-%d", seed, r)})
+	}
+	seqOf := func(c int) int { return int(dts[c].DT.CreatePushPullPack().CheckPoint.Cseq) }
+	local := func(c int) {
+		n := seqOf(c) + 1
+		dts[c].List.Insert(dts[c].List.Size(), fmt.Sprintf("c%ds%d", c, n))
+		emit(ev{"event": "local", "c": c})
+	}
+	tx := func(c, n int) {
+		h := seqOf(c) + 1
+		dts[c].List.Transaction("t", func(l orda.ListInTx) error {
+			for j := 1; j <= n; j++ {
+				l.Insert(l.Size(), fmt.Sprintf("c%ds%d", c, h+j))
+			}
+			return nil
+		})
+		headers[[2]int{c, h}] = n
+		for j := 0; j <= n; j++ {
+			emit(ev{"event": "local", "c": c})
+		}
+	}
+	sync := func(c int) bool {
+		d := dts[c]
+		pack := d.DT.CreatePushPullPack()
+		nextID++
+		id := nextID
+		emit(ev{"event": "call", "id": id, "c": c, "nops": len(pack.Operations), "cps": pack.CheckPoint.Sseq, "cpc": pack.CheckPoint.Cseq})
+		ncalls++
+		res := st.Serve(d.Request(), deadline)
+		e := ev{"event": "ret", "id": id, "c": c}
+		if res.Resp != nil {
+			msg := &model.PushPullMessage{}
+			proto.Unmarshal(res.Resp, msg)
+			if len(msg.PushPullPacks) == 1 {
+				q := msg.PushPullPacks[0]
+				e["kind"], e["cps"], e["cpc"], e["nops"] = kindOf(q), q.CheckPoint.Sseq, q.CheckPoint.Cseq, len(q.Operations)
+			} else {
+				e["kind"] = "empty"
+			}
+		} else {
+			e["kind"] = "rpcerror"
+		}
+		emit(e)
+		if res.Timeout || res.Panic != "" {
+			fail("hang", "a request of a long history was not answered: "+res.Panic)
+			return false
+		}
+		if res.Resp != nil {
+			if _, pan := d.Apply(res.Resp); pan != "" {
+				fail("panic", "the client panicked applying a response: "+pan)
+				return false
+			}
+			emit(ev{"event": "apply", "id": id, "c": c})
+		}
+		return true
+	}
+	state := func() {
+		st.FM.WaitIdle(20*time.Millisecond, 3*time.Second)
+		store := st.ReadStore()
+		if len(store.Datatypes) == 1 {
+			dr := store.Datatypes[0]
+			lg := [][]int{}
+			ops := append([]stack.OpRow{}, store.Ops[dr.DUID]...)
+			sort.Slice(ops, func(i, j int) bool { return ops[i].Sseq < ops[j].Sseq })
+			for _, o := range ops {
+				lg = append(lg, []int{cuid[o.CUID], int(o.Seq)})
+			}
+			scp := make([][]int, 4)
+			for c := 1; c <= 4; c++ {
+				scp[c-1] = []int{-1, -1}
+				if cl, okc := cls[c]; okc {
+					if cp, has := dr.CP[cl.Model.CUID]; has {
+						scp[c-1] = []int{int(cp[0]), int(cp[1])}
+					}
+				}
+			}
+			emit(ev{"event": "store", "log": lg, "end": dr.End, "scp": scp})
+		}
+		for c := 1; c <= 2; c++ {
+			pack := dts[c].DT.CreatePushPullPack()
+			held := [][]int{}
+			have := map[[2]int]bool{}
+			n := dts[c].List.Size()
+			if n > 0 {
+				vs, _ := dts[c].List.GetMany(0, n)
+				for _, v := range vs {
+					var oc, sq int
+					if _, err := fmt.Sscanf(fmt.Sprint(v), "c%ds%d", &oc, &sq); err == nil {
+						held = append(held, []int{oc, sq})
+						have[[2]int{oc, sq}] = true
+					}
+				}
+			}
+			for h, cnt := range headers { // a unit's header operation is held when its operations are
+				all := true
+				for j := 1; j <= cnt; j++ {
+					all = all && have[[2]int{h[0], h[1] + j}]
+				}
+				if all {
+					held = append(held, []int{h[0], h[1]})
+				}
+			}
+			emit(ev{"event": "client", "c": c, "cps": pack.CheckPoint.Sseq, "seq": pack.CheckPoint.Cseq, "held": held})
+		}
+	}
+	for c := 1; c <= 2; c++ {
+		cl := stack.NewClient("col", fmt.Sprintf("c%d", c))
+		mode := "dueSub"
+		if c == 1 {
+			mode = "dueCreate"
+		}
+		dts[c] = cl.Open("list", key, mode)
+		if err := st.Register(cl); err != nil {
+			fmt.Printf(`{"error":"register: %s"}`+"\n", err)
+			os.Exit(3)
+		}
+		cls[c] = cl
+		cuid[cl.Model.CUID] = c
+		emit(ev{"event": "open", "c": c, "mode": mode})
+		if !sync(c) {
+			return
+		}
+	}
+	// client 2 is offline while client 1 pushes a long log in batches
+	batches := 11 + rng.Intn(3)
+	for b := 0; b < batches; b++ {
+		for j := 0; j < 100; j++ {
+			local(1)
+		}
+		if !sync(1) {
+			return
+		}
+	}
+	local(2)
+	if !sync(2) || !sync(1) || !sync(2) {
+		return
+	}
+	state()
+	// more pending operations than one buffer holds, a transaction across the 1024th; client 2 pulls in between
+	before := 1015 + rng.Intn(8)
+	for j := 0; j < before; j++ {
+		local(1)
+	}
+	tx(1, 6+rng.Intn(6))
+	for j := 0; j < 5; j++ {
+		local(1)
+	}
+	if !sync(1) || !sync(2) || !sync(1) || !sync(2) || !sync(1) {
+		return
+	}
+	state()
+	v1, _ := json.Marshal(dts[1].List.ToJSON())
+	v2, _ := json.Marshal(dts[2].List.ToJSON())
+	view, _, rerr := st.Rebuild("col", 1, dts[1].DT.GetDUID())
+	vs, _ := json.Marshal(view)
+	if string(v1) != string(v2) || rerr != nil || string(vs) != string(v1) {
+		fail("mismatch", fmt.Sprintf("after a long history everybody has synced with nothing left to push or pull, but the lists differ (client 1: %d elements, client 2: %d, server rebuild error: %v)", dts[1].List.Size(), dts[2].List.Size(), rerr))
+	}
+	emit(ev{"event": "reset"})
+	return
+}
+
+func tail(t []ev, n int) []ev {
+	if len(t) > n {
+		return t[len(t)-n:]
+	}
+	return t
 }
